@@ -83,8 +83,16 @@ def wl_exhaustive(ctx, idx, rng):
     nf, pf = pb.utils.next_fast_len, pb.utils.prev_fast_len
     for N in Ns:
         N = int(N)
-        nf(N)
-        pf(N)
+        # the two functions in either order, and one of them alone (anything one call leaves behind must not steer the other)
+        order = int(rng.integers(4))
+        if order == 0:
+            nf(N), pf(N)
+        elif order == 1:
+            pf(N), nf(N)
+        elif order == 2:
+            pf(N), nf(N + 1 if N % 3 else max(N - 1, 0))
+        else:
+            nf(N), pf(N + 1)
     for N in Ns[:256]:      # warm-cache repeats
         nf(int(N))
         pf(int(N))
@@ -121,8 +129,10 @@ def wl_smooth(ctx, idx, rng):
                         if N <= np.iinfo(t_).max and rng.random() < 0.6:
                             Na = t_(N)
                             break
-                nf(Na)
-                pf(Na)
+                if rng.random() < 0.5:
+                    nf(Na), pf(Na)
+                else:
+                    pf(Na), nf(Na)
                 pts.append(N)
     ctx.describe_case({"around_smooth": pts[:6]})
     if idx % 500 == 0:
